@@ -212,7 +212,7 @@ class PseudoOperand(Operand):
         if instruction.is_pseudo_define:
             if self.operand_string.startswith("$") and len(self.operand_string) > 3:
                 self.value = ExtendedNumericValue(self.value.int)
-            elif self.value.hex_len() == 2:
+            elif self.value.hex_len() == 2 and not self.value.is_negative():
                 self.value = DirectNumericValue(self.value.int)
 
     def resolve_symbols(self, symbol_table):
